@@ -211,13 +211,13 @@ Proof.
   destruct arg as [[c|v]|].
   - destruct (pd_col c res2) as [vals|] eqn:Ec; cbn [obind]; [|discriminate].
     destruct (agg_on rkeys vals (transform_op_map fn)) as [x'|] eqn:Ea; cbn [obind]; [|discriminate].
-    intros H. inversion H; subst. split; [reflexivity|]. apply (Fin _ _ Ea). apply PV. rewrite Ec. reflexivity.
+    intros H. inversion H; subst. split; [reflexivity|]. apply (Fin _ _ Ea). apply PV. reflexivity.
   - destruct (const_lookup v temps) as [name|] eqn:El; cbn [obind]; [|discriminate].
     destruct (pd_col name res2) as [vals|] eqn:Ec; cbn [obind]; [|discriminate].
     destruct (agg_on rkeys vals (transform_op_map fn)) as [x'|] eqn:Ea; cbn [obind]; [|discriminate].
-    intros H. inversion H; subst. split; [reflexivity|]. apply (Fin _ _ Ea). apply PV. rewrite El. cbn [obind]. rewrite Ec. reflexivity.
+    intros H. inversion H; subst. split; [reflexivity|]. apply (Fin _ _ Ea). apply PV. reflexivity.
   - destruct (strip_underscore fn) as [z|] eqn:Ez; cbn [obind]; [|discriminate].
     destruct (pd_col T res2) as [vals|] eqn:Ec; cbn [obind]; [|discriminate].
     destruct (agg_on rkeys vals (transform_op_map z)) as [x'|] eqn:Ea; cbn [obind]; [|discriminate].
-    intros H. inversion H; subst. split; [reflexivity|]. apply (Fin _ _ Ea). apply PV. rewrite Ez. cbn [obind]. rewrite Ec. reflexivity.
+    intros H. inversion H; subst. split; [reflexivity|]. apply (Fin _ _ Ea). apply PV. reflexivity.
 Qed.
